@@ -36,15 +36,15 @@ func Bin(name string) string { return filepath.Join(BuildDir(), name) }
 
 // ServerCfg is the part of the dtail configuration file the checks vary.
 type ServerCfg struct {
-	MaxLineLength      int                 `json:",omitempty"`
-	MaxConcurrentCats  int                 `json:",omitempty"`
-	MaxConcurrentTails int                 `json:",omitempty"`
-	MaxConnections     int                 `json:",omitempty"`
-	HostKeyFile        string              `json:",omitempty"`
-	HostKeyBits        int                 `json:",omitempty"`
-	MapreduceLogFormat string              `json:",omitempty"`
-	SSHBindAddress     string              `json:",omitempty"`
-	Permissions        *Permissions        `json:",omitempty"`
+	MaxLineLength      int                      `json:",omitempty"`
+	MaxConcurrentCats  int                      `json:",omitempty"`
+	MaxConcurrentTails int                      `json:",omitempty"`
+	MaxConnections     int                      `json:",omitempty"`
+	HostKeyFile        string                   `json:",omitempty"`
+	HostKeyBits        int                      `json:",omitempty"`
+	MapreduceLogFormat string                   `json:",omitempty"`
+	SSHBindAddress     string                   `json:",omitempty"`
+	Permissions        *Permissions             `json:",omitempty"`
 	Schedule           []map[string]interface{} `json:",omitempty"`
 	Continuous         []map[string]interface{} `json:",omitempty"`
 }
@@ -190,12 +190,12 @@ func FreePort() int {
 
 // ServerOpts configures StartServer.
 type ServerOpts struct {
-	Dir        string
-	Label      string // host label (DTAIL_HOSTNAME_OVERRIDE)
-	Cfg        ServerCfg
-	Users      map[string][]string // user -> authorized_keys lines
-	LogLevel   string
-	Env        []string
+	Dir         string
+	Label       string // host label (DTAIL_HOSTNAME_OVERRIDE)
+	Cfg         ServerCfg
+	Users       map[string][]string // user -> authorized_keys lines
+	LogLevel    string
+	Env         []string
 	AuthKeysRaw map[string]string // user -> raw authorized_keys file content (overrides Users)
 }
 
